@@ -158,8 +158,8 @@ func (k *checker) halvedMeasures(g graph.Graph, src string, p path.AllShortest) 
 type builder struct {
 	half bool // build weighted containers with every weight halved
 	neg  bool // build weighted containers with every weight negated
-	c   *netCase
-	ids []int64 // model node i (1-based) -> real id
+	c    *netCase
+	ids  []int64 // model node i (1-based) -> real id
 }
 
 func (b *builder) id(i int64) int64 { return b.ids[i-1] }
